@@ -41,6 +41,7 @@ type WarcIndex struct {
 	Recs    []*WarcRec
 	Errs    []string // structural problems that are violations wherever they are
 	TailErr map[string]string
+	EmptyMembers int
 }
 
 func NewWarcIndex(dir string) *WarcIndex {
@@ -134,6 +135,12 @@ func (w *WarcIndex) scanFile(path, base string) {
 		if err != nil {
 			w.TailErr[base] = fmt.Sprintf("offset %d: truncated/corrupt member: %v", start, err)
 			return
+		}
+		if len(data) == 0 {
+			// an empty gzip member (the writer closes a compressor it never wrote to): carries no bytes, tolerated
+			w.EmptyMembers++
+			w.offsets[base] = off + cr.n
+			continue
 		}
 		rec, perr := parseWarcRecord(data)
 		if perr != nil {
